@@ -410,7 +410,12 @@ def run_prop(prop, tier, seed, replay=None):
         obs = run_impl(prop.impl_module, cases, per_case=prop.per_case_timeout) if cases else []
     mouts = None
     if model_ok and cases:
-        minputs = [prop.model_input2(c, o) for c, o in zip(cases, obs)]
+        def minput(c, o):
+            try:
+                return prop.model_input2(c, o)
+            except Exception:  # noqa - an observation of unexpected shape: the model is asked about the case alone
+                return prop.model_input(c)
+        minputs = [minput(c, o) for c, o in zip(cases, obs)]
         mouts, merr = run_model(prop.entry, minputs)
         if mouts is None:
             broken.append("model runner failed: " + merr)
@@ -454,10 +459,16 @@ def run_prop(prop, tier, seed, replay=None):
         first = i not in obs_of
         if first:
             obs_of[i] = o
-            k = prop.nontrivial(c, o)
+            try:
+                k = prop.nontrivial(c, o)
+            except Exception:  # noqa
+                k = None
             if k is not None:
                 nontriv.add(k)
-        f = prop.oracle(c, o)
+        try:
+            f = prop.oracle(c, o)
+        except Exception as ex:  # noqa - an observation of a shape the oracle cannot even read is a failure, not a crash of the check
+            f = "unreadable: the oracle cannot judge what the implementation did (%s: %s)" % (type(ex).__name__, str(ex)[:120])
         if f is not None:
             if not first:
                 obs[i] = o          # the replay shows the observation that failed
@@ -466,7 +477,10 @@ def run_prop(prop, tier, seed, replay=None):
                 sequences[i] = [cases[j] for j in order[:order.index(i) + 1]]
             failures.append((i, f))
         if mouts is not None:
-            d = prop.compare(c, o, mouts[i])
+            try:
+                d = prop.compare(c, o, mouts[i])
+            except Exception as ex:  # noqa
+                d = "model and implementation cannot be compared on this case (%s: %s)" % (type(ex).__name__, str(ex)[:120])
             if d is not None:
                 if not first:
                     d = d + " [when re-run after other cases in the same process]"
@@ -475,7 +489,10 @@ def run_prop(prop, tier, seed, replay=None):
     # ---- violation protocol
     reported = set()
     for i, f in failures:
-        kf = prop.known(cases[i], obs[i], f)
+        try:
+            kf = prop.known(cases[i], obs[i], f)
+        except Exception:  # noqa
+            kf = None
         if kf:
             if kf not in res.known_seen:
                 res.known_seen.append(kf)
@@ -497,7 +514,10 @@ def run_prop(prop, tier, seed, replay=None):
             extra = prop.extra_search(random.Random(seed + 7919))
             eobs = run_impl(prop.impl_module, extra, per_case=prop.per_case_timeout) if extra else []
             for c, o in zip(extra, eobs):
-                f = prop.oracle(c, o)
+                try:
+                    f = prop.oracle(c, o)
+                except Exception as ex:  # noqa
+                    f = "unreadable: the oracle cannot judge what the implementation did (%s: %s)" % (type(ex).__name__, str(ex)[:120])
                 if f is not None and not prop.known(c, o, f):
                     res.violation("counterexample", None, {"input": c, "observed": o, "required": f,
                                                            "found_by": "targeted search after broken obligation/correspondence"})
@@ -514,7 +534,12 @@ def run_prop(prop, tier, seed, replay=None):
             res.violation("no-failing-input-found", what, payload)
 
     # ---- evidence
-    samples = [prop.sample(cases[i], obs[i]) for i in range(0, len(cases), max(1, len(cases) // 3))][:3]
+    def guarded(fn, default):
+        try:
+            return fn()
+        except Exception as ex:  # noqa - evidence is written whatever shape the observations have
+            return default if default is not None else {"unavailable": "%s: %s" % (type(ex).__name__, str(ex)[:100])}
+    samples = guarded(lambda: [prop.sample(cases[i], obs[i]) for i in range(0, len(cases), max(1, len(cases) // 3))][:3], [])
     n_obl = len(theorems) + 1 + (1 if prop.uses_registry else 0)
     n_dis = (closed if not any("Properties/" in b or "proof obligation" in b for b in broken) else 0) \
         + (1 if not disagreements and mouts is not None else 0) \
@@ -530,7 +555,7 @@ def run_prop(prop, tier, seed, replay=None):
         "distinct_nontrivial": len(nontriv),
         "rule": prop.rule,
         "samples": samples,
-        "generator_histogram": prop.histogram(cases, obs),
+        "generator_histogram": guarded(lambda: prop.histogram(cases, obs), None),
         "model_vs_impl_disagreements": len(disagreements),
         "oracle_failures": len(failures),
         "known_findings_seen": res.known_seen,
